@@ -376,3 +376,24 @@ def finish(ctx):
         log("%s: %d violation(s)" % (ctx.pid, len(ctx.violations)))
         return 1
     return 0
+
+
+# --------------------------------------------------------------------------- direction B: trace validation
+
+def validate_trace(ctx, name, base, env_var, path, *, invariants=(), timeout=1800, extra_defs="", count_key=None):
+    """Validates a recorded ndjson file against trace spec `base` (Spec / HighWater / Accepted convention).
+    Returns (accepted, rejected_line_text).  A rejection is a statement about the real code's behaviour."""
+    d = write_mc(ctx, name, base, {}, spec="Spec", invariants=list(invariants), constraint="HighWater", postcondition="Accepted",
+                 extra_defs=extra_defs)
+    env = {env_var: path, "JAVA_TOOL_OPTIONS": "-Dtlc2.tool.queue.IStateQueue=StateDeque"}
+    r = run_tlc(ctx, d, name, workers=1, timeout=timeout, env=env, expect_violation=False)
+    if r.violated is None:
+        return True, None, r
+    rej = None
+    with open(r.stdout_path, errors="replace") as f:
+        txt = f.read()
+    i = txt.find("REJECTED")
+    if i >= 0:
+        j = txt.find("Error:", i)
+        rej = " ".join(txt[max(0, i - 4):j if j > 0 else i + 3000].split())[:3000]
+    return False, rej or ("violated: %s" % r.violated), r
